@@ -199,8 +199,8 @@ def csnap(e):
     a = e['answer'] or dict(status='Not Solved', vals=[])
     bounds = []
     for role, (lo, hi), cat in p['bounds']:
-        if lo is None or hi is None:
-            lo, hi = -999999, -999999      # an unbounded variable never matches the model
+        if lo is None or hi is None or cat != 'Integer':
+            lo, hi = -999999, -999999      # an unbounded or non-integer variable never matches the model
         bounds.append('(%s, (%s, %s))' % (cvar(role), C.cz(lo), C.cz(hi)))
     return '(mkSnap %s %s %s %s %s)' % (C.clist([cconstr(c) for c in p['cs']]), clin(p['objective']),
                                         C.clist(bounds), C.cbool(p['dup_names']), canswer(a))
